@@ -232,6 +232,15 @@ class WindowedBinaryNormalizedEntropy(
         else:
             return windowed_normalized_entropy
 
+    def reset(self: TWindowedNormalizedEntropy) -> TWindowedNormalizedEntropy:
+        """
+        Reset the metric state variables to their default value and rewind
+        the window cursor, which is not a registered state.
+        """
+        super().reset()
+        self.next_inserted = 0
+        return self
+
     @torch.inference_mode()
     def merge_state(
         self: TWindowedNormalizedEntropy, metrics: Iterable[TWindowedNormalizedEntropy]
